@@ -323,14 +323,12 @@ def run_siblings(ctx, caps_list):
 
 
 # ------------------------------------------------------------------ colliding definition names -> distinct type names
-def run_types(ctx):
+def collision_schemas(ctx):
+    """definitions whose names collide after normalisation, each a distinct object schema, with every set of references
+    between them (quick: at most two references; thorough: every subset when there are three definitions)"""
     groups = [["LineItem", "lineItem", "line_item"], ["a", "A"], ["Foo", "foo", "FOO", "f_oo"], ["x1", "x_1", "X1"], ["T", "t", "T_1"]]
-    b = Batch(ctx, "c14t")
-    meta = []
-    k = 0
+    out = []
     for g in groups:
-        # every definition is a distinct object schema; variants: every set of references between the colliding
-        # definitions (quick: at most two references; thorough: every subset when there are three definitions)
         edges = [(i, j) for i in range(len(g)) for j in range(len(g)) if i != j]
         maxk = 2 if (ctx.tier == "quick" or len(g) > 3) else len(edges)
         subsets = [es for n in range(0, maxk + 1) for es in itertools.combinations(edges, n)]
@@ -343,11 +341,19 @@ def run_types(ctx):
                         props["to%d" % c] = {"$ref": "#/$defs/" + g[c]}
                 defs[n] = {"type": "object", "properties": props, "required": ["p%d" % j]}
             schema = {"type": "object", "$defs": defs, "properties": {("r%d" % j): {"$ref": "#/$defs/" + n} for j, n in enumerate(g)}}
-            cid = "t%d" % k
-            k += 1
-            b.add({"id": cid, "cfg": {"tags": ["json"], "mappings": [{"id": "", "root": "Root", "package": cid, "output": cid + "/gen.go"}]},
-                   "files": {"s.json": json.dumps(schema)}, "argv": ["s.json"], "jobs": []})
-            meta.append((cid, g, variant, schema))
+            out.append((g, variant, schema))
+    return out
+
+
+def run_types(ctx):
+    b = Batch(ctx, "c14t")
+    meta = []
+    groups = sorted(set(tuple(x[0]) for x in collision_schemas(ctx)))
+    for k, (g, variant, schema) in enumerate(collision_schemas(ctx)):
+        cid = "t%d" % k
+        b.add({"id": cid, "cfg": {"tags": ["json"], "mappings": [{"id": "", "root": "Root", "package": cid, "output": cid + "/gen.go"}]},
+               "files": {"s.json": json.dumps(schema)}, "argv": ["s.json"], "jobs": []})
+        meta.append((cid, g, variant, schema))
     b.run()
     idents = {}
     allnames = sorted(set(n for g in groups for n in g))
